@@ -474,6 +474,42 @@ var hostileStrs = []string{"", "x", "abc", "a b", "{}", "{", "}{", "{}{}{}", "{{
 	"YWJj", "YWJj=", "!!!!", "====", "x.lisp", "../../etc/passwd", "/dev/zero", "/dev/stdin", "list", "vector", "user", "lisp", "json",
 	"Name", "Ptr", "hidden", "X", "Inner", "Fn", ",", " ", "\n", "self", "a", "b", "k"}
 
+// structured strings the string-taking builtins parse: a drawn one is edited
+// in one to three places (delete, duplicate, replace, insert, truncate), which
+// yields the NEARLY valid inputs -- a one-digit hour, a missing quote, a
+// dangling exponent -- that hand-picked hostile constants do not contain.
+var structuredStrs = []string{
+	"2006-01-02T15:04:05Z", "2006-01-02T15:04:05.123456789Z", "2006-01-02T15:04:05+07:00", "2006-01-02T15:04:05.5-00:30", "2024-02-29T23:59:60Z",
+	"1h2m3.5s", "-1.5h", "300ms", "1us", "2562047h47m16s", "1m0.000000001s",
+	`{"a":[1,2.5e3,{"b":null,"c":"\u00e9\n"}],"d":true}`, `[1,-0.0,1e-7,"x"]`, `"\ud83d\ude00"`, `9007199254740993`,
+	"YWJjZA==", "YWJj", "a-_b",
+	"{} and {}", "{{}} {}", "%v %d %%",
+	"^a(b|c)*d[e-g]{1,3}$", "(?i)x+?", "\\d+\\.\\d*",
+	"pkg:name", ":kw", "a.b.c", "a/b/c.lisp",
+}
+
+var editAlphabet = []byte("0123456789:-+.TZz eE{}[]\"\\,()%/\x00\xff")
+
+func genMutStr(t *rapid.T) []byte {
+	b := []byte(rapid.SampledFrom(structuredStrs).Draw(t, "base"))
+	for n := rapid.IntRange(1, 3).Draw(t, "nedits"); n > 0 && len(b) > 0; n-- {
+		i := rapid.IntRange(0, len(b)-1).Draw(t, "at")
+		switch rapid.IntRange(0, 4).Draw(t, "edit") {
+		case 0: // delete
+			b = append(b[:i:i], b[i+1:]...)
+		case 1: // duplicate
+			b = append(b[:i+1:i+1], b[i:]...)
+		case 2: // replace
+			b[i] = rapid.SampledFrom(editAlphabet).Draw(t, "ch")
+		case 3: // insert
+			b = append(b[:i:i], append([]byte{rapid.SampledFrom(editAlphabet).Draw(t, "ch")}, b[i:]...)...)
+		default: // truncate
+			b = b[:i]
+		}
+	}
+	return b
+}
+
 func genAtom(t *rapid.T) VD {
 	switch rapid.IntRange(0, 13).Draw(t, "atom") {
 	case 0:
@@ -491,8 +527,11 @@ func genAtom(t *rapid.T) VD {
 		}
 		return VD{K: "float", F: math.Float64bits(rapid.SampledFrom(hostileFloats).Draw(t, "f"))}
 	case 5, 6:
-		if rapid.IntRange(0, 4).Draw(t, "sr") == 0 {
+		switch rapid.IntRange(0, 5).Draw(t, "sr") {
+		case 0:
 			return VD{K: "str", S: rapid.SliceOfN(rapid.Byte(), 0, 12).Draw(t, "s")}
+		case 1, 2:
+			return VD{K: "str", S: genMutStr(t)}
 		}
 		return VD{K: "str", S: []byte(rapid.SampledFrom(hostileStrs).Draw(t, "s"))}
 	case 7:
